@@ -111,7 +111,16 @@ pub fn dump(fsm: &Fsm) -> String {
             let v: Vec<String> = s
                 .invoke
                 .iterator()
-                .map(|i| format!("{}:{}:{}:{}", i.doc_id, if i.autoforward { 1 } else { 0 }, i.finalize, hexs(&i.invoke_id)))
+                .map(|i| {
+                    format!(
+                        "{}:{}:{}:{}:{}",
+                        i.doc_id,
+                        if i.autoforward { 1 } else { 0 },
+                        i.finalize,
+                        hexs(&i.invoke_id),
+                        if i.name_list.is_empty() { ".".to_string() } else { i.name_list.iter().map(|n| hexs(n)).collect::<Vec<_>>().join("+") }
+                    )
+                })
                 .collect();
             if v.is_empty() {
                 ".".to_string()
